@@ -415,6 +415,10 @@ def normalize_power(array, power=1):
 
     """
     array = np.asarray(array)
+    if array.dtype.kind in 'biu':
+        # integer (grey-level) maps would wrap around when squared in their
+        # own type
+        array = array.astype(float)
     return array * np.sqrt(power/np.sum(np.abs(array)**2))
 
 
